@@ -1,4 +1,5 @@
 import NeumannModel.Chain.Props2
+import NeumannModel.Chain.Lemmas7
 /-
   C16 — property theorems, part 4: `TensorStateMachine` as an object.  `apply_block` / `apply_entry` choose between
   a fast and a full append by the block's similarity to the embeddings THIS object tracked (`recent_embeddings`:
@@ -11,10 +12,6 @@ namespace Neumann.Chain.Props
 open Neumann.Chain
 
 /-! ## 11. the fast path and the recent-embedding window -/
-
-theorem stateStore_setState (r : Replica) (s : List (SKey × SVal)) : (r.setState s).stateStore = s := by
-  obtain ⟨st, c, sh⟩ := r
-  cases sh <;> simp [Replica.setState, Replica.stateStore]
 
 /-- THE WINDOW DECIDES NOTHING BUT THE PATH.  For every similarity function, threshold and window size (`F`),
     every window, every replica and every block: `apply_block` of the object gives exactly the verdict and the
@@ -43,22 +40,6 @@ theorem accepted_block_certifies_state_root (F : FastPath) (C : Crypto) (reg : O
   · rename_i hne
     exact Classical.not_not.mp hne
 
-/-- the window after `apply_block`: extended by `track_embedding` exactly when the block was accepted -/
-theorem applyBlockM_recent (F : FastPath) (C : Crypto) (reg : Option (List (List Nat × Nat))) (m : Machine) (b : Block) :
-    (applyBlockM F C reg m b).1.recent =
-      if (applyBlockM F C reg m b).2 = none then trackEmbedding F m.recent b else m.recent := by
-  unfold applyBlockM appendFast appendFull
-  simp only [ite_self]
-  by_cases hne : b.header.stateRoot = stateRoot C (m.rep.setState (applyTxs m.rep.stateStore b.txs)).stateStore
-  · simp only [hne, ne_eq, not_true_eq_false, if_false]
-    cases append C reg (m.rep.setState (applyTxs m.rep.stateStore b.txs)).chain b with
-    | ok c' => dsimp only; rw [if_pos rfl]
-    | error e' => dsimp only; rw [if_neg (by intro h; cases h)]
-  · have hne' : b.header.stateRoot ≠ stateRoot C (m.rep.setState (applyTxs m.rep.stateStore b.txs)).stateStore := hne
-    rw [if_pos hne']
-    dsimp only
-    rw [if_neg (by intro h; cases h)]
-
 /-- a rejected block leaves the whole object as it was: state store, chain, and the window -/
 theorem rejected_block_leaves_machine_untouched (F : FastPath) (C : Crypto) (reg : Option (List (List Nat × Nat)))
     (m : Machine) (b : Block) (e : ApplyErr) (h : (applyBlockM F C reg m b).2 = some e) :
@@ -86,11 +67,6 @@ theorem accepted_block_tracked (F : FastPath) (C : Crypto) (reg : Option (List (
     (applyBlockM F C reg m b).1.recent = trackEmbedding F m.recent b := by
   rw [applyBlockM_recent, h]
   simp
-
-theorem trimFront_length (n : Nat) (l : List (List Nat)) : (trimFront n l).length ≤ n := by
-  unfold trimFront
-  simp only [List.length_drop]
-  omega
 
 /-- THE WINDOW STAYS BOUNDED and holds non-empty embeddings only, across every operation of the object -/
 theorem window_bounded (F : FastPath) (C : Crypto) (reg : Option (List (List Nat × Nat))) (m : Machine) (o : MOp)
@@ -161,16 +137,7 @@ theorem replicas_agree_for_every_pair_of_windows (C : Crypto) (reg : Option (Lis
   rw [r1, r2, v1, v2, hb]
   exact ⟨replay_verdicts_deterministic C reg _ _ _ hag, replay_deterministic C reg _ _ _ hag⟩
 
-theorem applyBlock_shared (C : Crypto) (reg : Option (List (List Nat × Nat))) (r : Replica) (b : Block) :
-    (applyBlock C reg r b).1.shared = r.shared := by
-  obtain ⟨st, c, sh⟩ := r
-  unfold applyBlock
-  simp only
-  split
-  · cases sh <;> simp [Replica.setState]
-  · cases append C reg (Replica.setState ⟨st, c, sh⟩ (applyTxs (Replica.stateStore ⟨st, c, sh⟩) b.txs)).chain b <;>
-      cases sh <;> simp [Replica.setState]
-
+/-- a replay never changes which store a replica keeps its state in -/
 theorem replay_shared (C : Crypto) (reg : Option (List (List Nat × Nat))) (bs : List Block) (r : Replica) :
     (replay C reg r bs).shared = r.shared := by
   induction bs generalizing r with
@@ -248,6 +215,10 @@ example : fpA1.recent = [[1, 0]] ∧ fpB1r.recent = [] ∧ Agree fpA1.rep fpB1r.
 example : blocksOf [.apply fpB1, .apply fpB2, .clear, .apply fpB2bad] = blocksOf [.apply fpB1, .restart, .apply fpB2, .apply fpB2bad] ∧
     verdictsM (drvFast false) drvCrypto none fpM0 [.apply fpB1, .apply fpB2, .clear, .apply fpB2bad] = [none, none, some .stateRoot] :=
   ⟨rfl, by decide +kernel⟩
+
+/-- non-vacuity of `window_bounded`: replica A's window after block 1 is within the bound and non-empty -/
+example : fpA1.recent.length ≤ (drvFast false).maxRecent ∧ (∀ e ∈ fpA1.recent, (drvFast false).nonzero e = true) ∧
+    fpA1.recent ≠ [] := by decide +kernel
 
 /-- the window evicts its oldest entry: with `max_recent` = 2, after three accepted embeddings the first is gone -/
 example : trackEmbedding { drvFast false with maxRecent := 2 } [[1, 0], [2, 0]] fpB2 = [[2, 0], [1, 3]] := by decide
